@@ -6,7 +6,8 @@
     happens to ONE path, decided by descending along its components. Directory trees of any
     depth and width, any set of tracked paths, any sparse / auto-track patterns, any ignore
     decisions. *)
-From Verif Require Import Base.Prelude Gen.Tables Model.C23 Proofs.C23.
+From Verif Require Import Base.Prelude Gen.Tables Model.C23 Proofs.C23 Proofs.C23Order.
+From Coq Require Import Permutation.
 Local Open Scope N_scope.
 
 Section Statements.
@@ -185,6 +186,22 @@ Section Reading.
   Proof. exact (act_untracked_not_deleted c root). Qed.
 End Reading.
 
+(** The result does not depend on the order in which directories list their entries (read_dir
+    order is arbitrary; the real walk handles the entries of a directory in parallel): trees
+    with the same entries by name at every level ([deq]) give the same snapshot, and permuting a
+    directory's entries gives such a tree. *)
+Theorem C23_order_independent : forall (c : cfg) (root1 root2 : dnode),
+  deq root1 root2 ->
+  paths_unique (map fst (c_tracked c)) = true ->
+  wf_node root1 = true -> wf_node root2 = true ->
+  forall p, new_tree_at c root1 p = new_tree_at c root2 p
+            /\ new_tracked c root1 p = new_tracked c root2 p.
+Proof. exact order_independent. Qed.
+
+Theorem C23_listing_order : forall es1 es2,
+  names_unique (map fst es1) = true -> Permutation es1 es2 -> deq (DDir es1) (DDir es2).
+Proof. exact deq_perm. Qed.
+
 (** The run-time checker judges the implementation's tree and file-state keys against
     [expected_at] / [expected_tracked] at every path of the disk, the old and new trees and
     states. *)
@@ -240,3 +257,4 @@ Print Assumptions C23_exact.
 Print Assumptions C23_walk_messages.
 Print Assumptions C23_states_match_tree.
 Print Assumptions C23_below_directory.
+Print Assumptions C23_order_independent.
